@@ -4,8 +4,11 @@ Shares no code with mitmproxy.  ``model(stream, ...)`` consumes the complete cli
 conforming server that supports only CONNECT may do; ``judge(expect, obs)`` compares an observation of the real
 layer with it.  Where the RFCs leave the server a choice the model is a *set* of acceptable outcomes:
 
-* RSV != 0 in the request and VER != 1 in the RFC 1929 sub-negotiation: "must be X'00'" / "is X'01'" bind the
-  client; a server may reject or be lenient.  Both are accepted (``strict`` flag).
+* VER != 1 in the RFC 1929 sub-negotiation ("is X'01'"): a server may reject or be lenient; both are accepted
+  (``strict_auth`` flag).  RSV != 0 in the RFC 1928 request is NOT such a choice: section 4 says "Fields marked
+  RESERVED (RSV) must be set to X'00'", the property demands the handshake be "parsed exactly", so a request with a
+  non-zero reserved octet is malformed and must be rejected (no REP code is defined for it: any failure reply or
+  none).  ``models()`` therefore always uses strict_rsv=True.
 * A stream that is still incomplete may be answered by "wait for more" or, if the prefix is already invalid, by a
   rejection.
 * A zero-length domain name may be rejected or connected to as the empty name.
@@ -151,7 +154,7 @@ def models(stream: bytes, auth_required: bool, cred_ok) -> list:
     """the acceptable expectations for a stream: one per distinguishable leniency choice (lenient/lenient first)"""
     out, seen = [], set()
     for sa in (False, True):
-        for sr in (False, True):
+        for sr in (True,):
             e = model(stream, auth_required, cred_ok, sa, sr)
             k = (e.state, e.prefix, e.rest, e.auth_fail, e.may_reject, repr(sorted(e.rep_codes)) if e.rep_codes is not None else None,
                  e.atyp, e.addr, e.port)
